@@ -25,8 +25,12 @@ LABEL_FLOORS = {'env-ideal': 0.2, 'bent-junction': 0.2, 'unequal-legs': 0.1, 'gr
 
 @st.composite
 def case_strategy(draw, big=False):
-    case = draw(gen.antenna(env_kinds=('free', 'ideal'), max_wires=4, max_seg=6 if not big else 10, nsrc=(1, 2),
-                            taper_prob=0.1, star=1))
+    if draw(st.integers(0, 4)) == 0:
+        # arcs and helices: every segment of ONE object has its own direction
+        case = draw(gen.curve_antenna(env_kinds=('free', 'ideal'), nsrc=(1, 2)))
+    else:
+        case = draw(gen.antenna(env_kinds=('free', 'ideal'), max_wires=4, max_seg=6 if not big else 10, nsrc=(1, 2),
+                                taper_prob=0.1, star=1))
     pts = []
     for i in range(3):
         shell = draw(st.sampled_from(['near', 'mid', 'far']))
@@ -91,6 +95,8 @@ def check(case):
     if why:
         return Result(skipped=why)
     labels = common.base_labels(case)
+    if any(o['type'] != 'wire' for o in case['objs']):
+        labels.append('curve')
     try:
         m = common.solved(case)
     except build.Rejected as e:
